@@ -7,7 +7,9 @@ from props import xpcommon as XP
 
 DOC = "<r>7</r>"
 STRS = ["", " ", "  x ", "\t\n", "abc", "äö", "\U0001D4B3z", "é", "12", " 12 ", "1e3", "+1", ".5", "5.", "Infinity", "-0",
-        "NaN", "-", "1 2", "true", "-12.50", "0x10", " " + "7" + " "]
+        "NaN", "-", "1 2", "true", "-12.50", "0x10", " " + "7" + " ",
+        # Unicode White_Space that is NOT XML white space (S is #x20 | #x9 | #xD | #xA only): ordinary characters to XPath
+        "10\u00a0000", "\u3000x\u3000", "\u2003a b", "a\u0085b", "\u00a07\u00a0", "x\u2028y", "\u00a0"]
 NUMS = ["0 div 0", "0", "-0", "1 div 0", "-1 div 0", "0.5", "-0.5", "1.5", "-1.5", "2.5", "-2.5", "1", "3", "-3",
         "9007199254740992", "1000000000000000000000", "0.0009765625", "-7.25", "0.1", "123456789.125",
         "0.49999999999999994", "100", "0.000001"]
